@@ -301,6 +301,12 @@ func (maps *trackedMaps) processUnfiltered(ctx context.Context, ef *Filter, filt
 							newMaps.trackMap(&tMap{
 								value: f,
 							})
+							// a Taggable map is filtered as its tags say, wherever it is found
+							if t, ok := taggableOf(f); ok {
+								if err := ef.filterTaggable(ctx, t, filterOverrides, newMaps, opt...); err != nil {
+									return fmt.Errorf("%s: unable to filter taggable map found in slice: %w", op, err)
+								}
+							}
 						default:
 							// nothing reasonable yet...
 						}
@@ -348,6 +354,13 @@ func (maps *trackedMaps) processUnfiltered(ctx context.Context, ef *Filter, filt
 					return fmt.Errorf("%s: unable to filter map: %w", op, err)
 				}
 				newMaps.parent = maps
+				// a Taggable map is filtered as its tags say, wherever it is found:
+				// the sweep which follows leaves the tagged fields alone.
+				if t, ok := taggableOf(field); ok {
+					if err := ef.filterTaggable(ctx, t, filterOverrides, newMaps, opt...); err != nil {
+						return fmt.Errorf("%s: unable to filter taggable map found in map: %w", op, err)
+					}
+				}
 				if err := newMaps.processUnfiltered(ctx, ef, filterOverrides, opt...); err != nil {
 					return fmt.Errorf("%s: unable to process maps found in map: %w", op, err)
 				}
@@ -363,6 +376,15 @@ func (maps *trackedMaps) processUnfiltered(ctx context.Context, ef *Filter, filt
 		m.filteredFields = nil
 	}
 	return nil
+}
+
+// taggableOf returns the value as a Taggable, if it implements the interface.
+func taggableOf(v reflect.Value) (Taggable, bool) {
+	if !v.IsValid() || !v.CanInterface() {
+		return nil, false
+	}
+	t, ok := v.Interface().(Taggable)
+	return t, ok
 }
 
 // pointerKey returns the map key which a segment of a pointer refers to:
